@@ -134,7 +134,7 @@ def gen_case(rng, size=1.0, force=None):
     barcodes = [f"BC{i}" for i in range(rng.choice([2, 3, 5]))]
     cutoff = rng.choice([60, 150, 400, 50000, 50000, 0])
     # barcodes are normally per sample; now and then the samples share the barcode whitelist (finding F71)
-    shared_barcodes = linked and len(bam_samples) > 1 and not ignore_read_groups and rng.random() < 0.3
+    shared_barcodes = linked and len(bam_samples) > 1 and not ignore_read_groups and rng.random() < 0.5
 
     alns = []
     rid = 0
@@ -307,7 +307,7 @@ def gen_case(rng, size=1.0, force=None):
         opts["sample"] = sorted(rng.sample(vcf_samples, 2))
     # read names occurring in two samples (different read groups): finding F71
     collisions = 0
-    if not ignore_read_groups and len(read_groups) > 1 and len({sm for _, sm in read_groups}) > 1 and rng.random() < 0.12:
+    if not ignore_read_groups and len(read_groups) > 1 and len({sm for _, sm in read_groups}) > 1 and rng.random() < 0.2:
         prim = [a for a in alns if a.get("chrom") in contigs and a.get("cigar") and not a["flag"] & (FLAG_SEC | FLAG_SUPP | FLAG_UNMAP | FLAG_PAIRED)
                 and a.get("mapq", 60) >= 20 and len(a["truth"]) >= 1]
         for a in rng.sample(prim, min(len(prim), rng.randrange(1, 4))):
